@@ -172,9 +172,63 @@ HasEscUpper(s, i) ==
            (v >= 65 /\ v <= 90) \/ HasEscUpper(s, i + 4)
          ELSE HasEscUpper(s, i + 2)
        ELSE HasEscUpper(s, i + 1)
-\* finding keys for digests: one class for the \DDD spelling of upper-case letters, else by hash / plain
-DSDigestKey(hn, text)  == IF HasEscUpper(text, 1) THEN "ds/digest:escaped-uppercase" ELSE "ds/digest:" \o hn
+(* Spellings.  The operations of the statement take a NAME and are handed its   *)
+(* TEXT; RFC 1035 section 5.1 gives a name many texts: an octet stands for      *)
+(* itself (unless it is special), or is written \X (X not a digit), or \DDD.    *)
+(* The value of KeyTag-free operations (ToDS, HashName, Match, Cover) is a      *)
+(* function of the name: every text Names!Parse reads back to the same labels   *)
+(* has the same value.  In particular the LENGTH OF THE TEXT is not a property  *)
+(* of the name: the limits of a name are 63 octets per label and 255 octets on  *)
+(* the wire (Names!ValidName), and a name within them has texts of up to        *)
+(* 4 * 250 + 4 = 1004 characters; a name whose octets all need an escape (the   *)
+(* library's own presentation form of binary labels) is longer than 255         *)
+(* characters from 63 octets on.  No operation may bound the text by a limit of *)
+(* the wire form, nor a buffer by the length of the text.                       *)
+(*   "lib"  the library's own form (Names!Present)                              *)
+(*   "ddd"  every octet as \DDD                                                  *)
+(*   "esc"  every printable octet that is not a digit as \X, the others as \DDD  *)
+(*          (a raw octet outside ASCII is not text)                              *)
+(*   "mix"  the three in turn, octet by octet                                    *)
+Spellings == {"lib", "ddd", "esc", "mix"}
+SpellOctet(b, how) ==
+  CASE how = "ddd" -> <<92>> \o Dec3(b)
+    [] how = "esc" -> IF b > 32 /\ b < 127 /\ ~IsDigit(b) THEN <<92, b>> ELSE <<92>> \o Dec3(b)
+    [] OTHER       -> PresOctet(b)
+SpellLabel(lab, how) ==
+  Concat([j \in 1..Len(lab) |-> SpellOctet(lab[j], IF how = "mix" THEN <<"ddd", "esc", "lib">>[(j % 3) + 1] ELSE how)])
+Spell(n, how) == IF n = <<>> THEN <<46>> ELSE Concat([i \in 1..Len(n) |-> SpellLabel(n[i], how) \o <<46>>])
+
+(* A family of names that puts the length of the text where one wants it: p     *)
+(* octets spread over k labels as evenly as possible (wire length p + k + 1),   *)
+(* the octets of a class:                                                        *)
+(*   "ctl"    0..31          every octet is \DDD in every spelling: text 4p + k  *)
+(*   "high"   128..255       likewise                                            *)
+(*   "punct"  the special characters, hyphen, underscore and digits in turn      *)
+(*   "lower"  lower-case letters (their \DDD spelling is a pure re-spelling)     *)
+(*   "letters" upper- and lower-case letters in turn                             *)
+SpreadClasses == {"ctl", "high", "punct", "lower", "letters"}
+PunctCycle == <<46, 92, 64, 40, 41, 59, 34, 39, 32, 45, 95, 48, 57, 33, 126>>
+SpreadOctet(cls, i) ==
+  CASE cls = "ctl"     -> i % 32
+    [] cls = "high"    -> 128 + ((i * 7) % 128)
+    [] cls = "punct"   -> PunctCycle[(i % Len(PunctCycle)) + 1]
+    [] cls = "lower"   -> 97 + (i % 26)
+    [] OTHER           -> IF i % 2 = 0 THEN 65 + (i % 26) ELSE 97 + (i % 26)
+SpreadLens(p, k) == [i \in 1..k |-> (p \div k) + (IF i <= p % k THEN 1 ELSE 0)]
+SpreadOK(p, k, extra) ==        \* a valid name with `extra' more wire octets of other labels behind it
+  k >= 1 /\ k <= p /\ (p + k - 1) \div k <= MaxLabel /\ p + k + 1 + extra <= MaxName
+SpreadName(p, k, cls) ==
+  LET lens == SpreadLens(p, k)
+      before(i) == SumSeq(Sub(lens, 1, i - 1))
+  IN [i \in 1..k |-> [j \in 1..lens[i] |-> SpreadOctet(cls, before(i) + j)]]
+
+\* finding keys for digests: one class for the \DDD spelling of upper-case letters, one for texts longer than the
+\* 255 octets a NAME may have, else by hash / plain
+LongText(text) == Len(text) > MaxName
+DSDigestKey(hn, text)  == IF HasEscUpper(text, 1) THEN "ds/digest:escaped-uppercase"
+                          ELSE "ds/digest:" \o hn \o (IF LongText(text) THEN ":text-longer-than-255" ELSE "")
 HashNameKey(text, variant) == IF HasEscUpper(text, 1) THEN "nsec3/hashname:escaped-uppercase"
+                              ELSE IF LongText(text) THEN "nsec3/hashname:text-longer-than-255"
                               ELSE IF variant THEN "nsec3/hashname:case-variant" ELSE "nsec3/hashname"
 -----------------------------------------------------------------------------
 (* Classification of a case, used only to build finding keys (one key per     *)
